@@ -717,6 +717,38 @@ def gen_retrychain(rng, **_):
     return sc
 
 
+def gen_fanin(rng, **_):
+    """several buses forward everything to one hub (an audit bus) with a short history; bursts of events are dispatched to the
+    sources without awaiting, so that the hub's queue fills up far beyond its history size (but below the queue limit)"""
+    k = rng.choice([2, 3, 3])
+    hub = k
+    sc = {'buses': [{'parallel': False, 'maxh': rng.choice([50, 50, None, 20]), 'wal': False} for _ in range(k)] +
+                   [{'parallel': rng.random() < 0.15, 'maxh': rng.choice([2, 3, 5, 10, 10, 50]), 'wal': False}],
+          'types': {t: {'timeout': None} for t in 'ABCD'}, 'handlers': [], 'tasks': []}
+    for b in range(k):
+        if rng.random() < 0.7:
+            sc['handlers'].append({'bus': b, 'key': rng.choice(['A', '*']), 'kind': rng.choice(['async', 'sync']), 'prog': []})
+        sc['handlers'].append({'bus': b, 'key': '*', 'kind': 'forward', 'target': hub, 'prog': []})
+    sc['handlers'].append({'bus': hub, 'key': '*', 'kind': rng.choice(['async', 'sync']), 'prog': []})
+    if rng.random() < 0.3:
+        sc['handlers'].append({'bus': hub, 'key': 'A', 'kind': 'async', 'prog': [['sleep', rng.choice([0, 1 / 64])]]})
+    m = rng.randint(3, 8)
+    main = []
+    slot = 0
+    order = [b for b in range(k) for _ in range(m)]
+    if rng.random() < 0.5:
+        rng.shuffle(order)
+    for b in order:
+        main.append(['dispatch', b, 'A', slot])
+        slot += 1
+    for b in range(k + 1):
+        main.append(['waitidle', b])
+    if rng.random() < 0.5:
+        main.append(['await', rng.randrange(slot)])
+    sc['tasks'].append(main)
+    return sc
+
+
 def gen_idle(rng, **_):
     """wait_until_idle() racing a sequential producer (`await bus.dispatch(...)` in a loop) at every phase offset,
     counted in zero-sleeps, plus external bursts: the re-check loop of wait_until_idle is exercised"""
